@@ -12,9 +12,10 @@
       fresh properties bound with immediate evaluation to operator expressions (arity 1-3) over existing properties (bound ones
       included, the same input any number of times), assignments to inputs - in every world such a history reaches, every bound
       property equals its expression recomputed from scratch (C02_growing_network_consistent).
-   4. the same for histories that also bind EXISTING unbound properties (which may already have readers) and call reset()
+   4. the same for histories that also bind EXISTING properties - unbound ones (which may already have readers) and bound ones
+      (the binding they had is destroyed first, exactly as reset() does: PropGrowMore.assign_over_bound) - and call reset()
       (coq/PropGrowMore.v: C02_network_with_late_bindings_and_resets_consistent).
-   PARTIAL: observers that write, direct rebinding of a bound property, moves and destruction between assignments are covered by
+   PARTIAL: observers that write, moves and destruction between assignments are covered by
    PropCheck.check_c02 on every world reached by the generated histories and by correspondence, not by the refinement. *)
 From Coq Require Import List ZArith.
 Import ListNotations.
@@ -92,8 +93,8 @@ Theorem C02_growing_network_consistent :
 Proof. exact PropGrow.grow_reachable_consistent. Qed.
 Print Assumptions C02_growing_network_consistent.
 
-(* ... and for histories in which existing unbound properties (possibly with readers already) are bound later and bound properties are
-   reset: grow_op2 = new property, assignment, read, plain observer, immediate binding of a fresh or unbound property, reset *)
+(* ... and for histories in which existing properties (possibly with readers already, possibly bound already) are bound later and bound
+   properties are reset: grow_op2 = new property, assignment, read, plain observer, immediate binding of ANY property, reset *)
 Theorem C02_network_with_late_bindings_and_resets_consistent :
   forall fn rtl fuel ops q x pr z,
     PropGrowMore.grow2_run_ok fn rtl fuel PropDefs.world0 ops ->
@@ -113,4 +114,18 @@ Example C02_growing_example :
   PropGrow.grow_run_ok fn true 8 PropDefs.world0 ops /\
   hd_error (PropDefs.w_trace (PropDefs.run fn true 8 ops)) = Some (PropDefs.EvDone None) /\
   nth_error (PropDefs.w_trace (PropDefs.run fn true 8 ops)) 1 = Some (PropDefs.EvVal (Some 12%Z)).
+Proof. vm_compute. repeat split; reflexivity. Qed.
+
+(* non-vacuity of the rebinding case: property 2 = p0 + p1 is read by property 3, then bound anew to p1 + p1 while 3 reads it;
+   the history is a grow_op2 history, no step throws, and after p1 := 10 property 3 holds (10 + 10) + 1 *)
+Example C02_rebinding_example :
+  let fn := fun (f : nat) (l : list Z) => Some (fold_right Z.add 0%Z l) in
+  let ops := [PropDefs.PNew 0 1%Z; PropDefs.PNew 1 2%Z;
+              PropDefs.PBind 2 (PropDefs.EOp2 0 (PropDefs.EProp 0) (PropDefs.EProp 1)) PropDefs.MImmediate;
+              PropDefs.PBind 3 (PropDefs.EOp2 1 (PropDefs.EProp 2) (PropDefs.EProp 0)) PropDefs.MImmediate;
+              PropDefs.PBind 2 (PropDefs.EOp2 0 (PropDefs.EProp 1) (PropDefs.EProp 1)) PropDefs.MImmediate;
+              PropDefs.PSet 1 10%Z PropDefs.WSet; PropDefs.PGet 3] in
+  PropGrowMore.grow2_run_ok fn true 8 PropDefs.world0 ops /\
+  hd_error (PropDefs.w_trace (PropDefs.run fn true 8 ops)) = Some (PropDefs.EvDone None) /\
+  nth_error (PropDefs.w_trace (PropDefs.run fn true 8 ops)) 1 = Some (PropDefs.EvVal (Some 21%Z)).
 Proof. vm_compute. repeat split; reflexivity. Qed.
